@@ -33,11 +33,21 @@ Definition inbox (n : net) (s : side) : list frame := match s with SA => to_a n 
 Definition sent_frames (effs : list effect) : list frame :=
   flat_map (fun x => match x with XEnq f => [f] | _ => [] end) effs.
 
+(* A frame as the pipeline delivers it: the sender rebuilds every payload-carrying frame from its fragments
+   (new_frame_fragment: NEXT unset) and serialisation sets NEXT exactly when there is content, so a PAYLOAD frame comes
+   out with NEXT = "has data or metadata" whatever the emitter set — an empty element is no element (cf. Frame.norm,
+   Fragmenter.mk_fragment; proofs/NetworkProofs.v on_wire_is_pipeline). *)
+Definition on_wire (f : frame) : frame :=
+  match f with
+  | FPayload sid ign fo co _ md d => FPayload sid ign fo co (has_content md d) md d
+  | _ => f
+  end.
+
 (* endpoint s becomes e, its inbox becomes q, and what it queued goes behind everything already under way to the peer *)
 Definition update (n : net) (s : side) (e : ep) (q : list frame) (sent : list frame) : net :=
   match s with
-  | SA => {| ea := e; eb := eb n; to_a := q; to_b := to_b n ++ sent |}
-  | SB => {| ea := ea n; eb := e; to_a := to_a n ++ sent; to_b := q |}
+  | SA => {| ea := e; eb := eb n; to_a := q; to_b := to_b n ++ map on_wire sent |}
+  | SB => {| ea := ea n; eb := e; to_a := to_a n ++ map on_wire sent; to_b := q |}
   end.
 
 (* the oldest frame of stream k in a queue, and the queue without it *)
@@ -113,12 +123,12 @@ Definition on_stream (k : N) (l : list frame) : list frame := filter (fun f => f
 Fixpoint pmap {A B} (f : A -> option B) (l : list A) : list B :=
   match l with [] => [] | x :: r => match f x with Some y => y :: pmap f r | None => pmap f r end end.
 
-(* everything endpoint s queued, in order *)
+(* everything endpoint s queued, in order, as it travels *)
 Fixpoint nwire (tr : list nevent) (s : side) : list frame :=
   match tr with
   | [] => []
   | EvLocal s' _ effs :: r | EvDeliver s' _ effs :: r =>
-      (if side_eqb s' s then sent_frames effs else []) ++ nwire r s
+      (if side_eqb s' s then map on_wire (sent_frames effs) else []) ++ nwire r s
   end.
 
 (* the frames dispatched at s, in order *)
